@@ -184,6 +184,7 @@ CLAIMED["C10"]["text"] += (" The vector behind the list, src/util.rs ArrayVec::p
 CLAIMED["C09"]["text"] += (" So are the tests behind the other can_proceed functions: Phase::is_prelude / is_body, the is_finished functions of the three calls, the guard of do_into_receive, Call::into_body, "
                            "Flow<SendRequest>::can_proceed (c09_code_phase_tests, c09_code_is_finished, c09_code_do_into_receive, c09_code_into_body, c09_code_send_request_can_proceed; proofs/Gen2_equiv_small_proceed.v).")
 CLAIMED["C17"]["text"] += (" Call<WithoutBody>::into_send_body (send_body_despite_method: the skip flag and the chunked default, refused once analysed) is translated and proved to be the model's (c17_code_into_send_body, proofs/Gen2_equiv_small_despite.v).")
+CLAIMED["C18"]["text"] += (" Flow<SendBody>::calculate_max_input (the function the caller asks) is translated whole by tools/rs2coq2.py and is the model's send_body_max_input (c18_code_flow_calculate_max_input, proofs/Gen2_equiv_small_maxinput.v).")
 for _p in ("C02", "C03", "C04", "C06", "C07", "C08", "C09", "C10", "C11", "C12", "C13", "C16", "C17"):
     CLAIMED[_p]["technique"] += " + the code's own functions translated to Gallina on every run and proved equivalent to the model"
 
